@@ -250,6 +250,7 @@ pub struct SinkShared {
     pub flushes: u64,
     pub partial: u64,
     pub interrupts: u64,
+    pub vectored_writes: u64,
     /// Length of `bytes` after each write call (for crash-point enumeration).
     pub cuts: Vec<usize>,
     pub keep_cuts: bool,
@@ -291,6 +292,47 @@ impl Write for MonSink {
                     g.partial += 1;
                 }
                 g.bytes.extend_from_slice(&buf[..n]);
+                if g.keep_cuts {
+                    let l = g.bytes.len();
+                    g.cuts.push(l);
+                }
+                Ok(n)
+            }
+        }
+    }
+    /// A sink may implement vectored writes itself: the same schedule then decides how many bytes
+    /// of the *concatenation* of the buffers are accepted (possibly crossing buffer boundaries).
+    fn write_vectored(&mut self, bufs: &[io::IoSlice<'_>]) -> io::Result<usize> {
+        if let Some(p) = &self.plan {
+            if p.tick(&self.name, "write") {
+                return Err(p.io_err());
+            }
+        }
+        let total: usize = bufs.iter().map(|b| b.len()).sum();
+        let mut g = self.shared.lock().unwrap();
+        g.writes += 1;
+        g.vectored_writes += 1;
+        if total == 0 {
+            return Ok(0);
+        }
+        match self.split.decide(total) {
+            Decision::Interrupt => {
+                g.interrupts += 1;
+                Err(interrupted())
+            }
+            Decision::Accept(n) => {
+                if n < total {
+                    g.partial += 1;
+                }
+                let mut left = n;
+                for b in bufs {
+                    let take = left.min(b.len());
+                    g.bytes.extend_from_slice(&b[..take]);
+                    left -= take;
+                    if left == 0 {
+                        break;
+                    }
+                }
                 if g.keep_cuts {
                     let l = g.bytes.len();
                     g.cuts.push(l);
@@ -446,7 +488,19 @@ pub struct MonChunk {
     name: String,
 }
 
+impl MonChunk {
+    /// The bytes currently stored in this chunk.
+    pub fn data(&self) -> &[u8] {
+        &self.data
+    }
+}
+
 impl Write for MonChunk {
+    fn write_vectored(&mut self, bufs: &[io::IoSlice<'_>]) -> io::Result<usize> {
+        // vectored writes are served as one write of the concatenation, under the same schedule
+        let all: Vec<u8> = bufs.iter().flat_map(|b| b.iter().copied()).collect();
+        self.write(&all)
+    }
     fn write(&mut self, buf: &[u8]) -> io::Result<usize> {
         if let Some(p) = &self.plan {
             if p.tick(&self.name, "write") {
